@@ -185,6 +185,20 @@ impl Machine {
             let (c, s) = futures::executor::block_on(b.start());
             (Some(c), Box::pin(s))
         };
+        // the app set is shared with the embedder, who may change it before the stream is first polled
+        if let Some((i, how)) = lock(w).script.spoil_app_after_start {
+            if !oneshot {
+                if let Some(mut g) = app_set.try_lock() {
+                    let n = g.apps.len();
+                    let a = &mut g.apps[i % n];
+                    if how == 0 {
+                        a.id = String::new();
+                    } else {
+                        a.version = Version::from([0]);
+                    }
+                }
+            }
+        }
         Machine { w: w.clone(), stream: Some(stream), ctl, root: Arc::new(Wk(AtomicUsize::new(1))), polled_at: 0, ended: false, polls: 0, storage, app_set }
     }
 
